@@ -214,14 +214,14 @@ def jacobian_forms(repo):
     if jac is None or wj is None:
         raise Refuse("Get_jacobian_e_pg / Get_weightedJacobian_e_pg not found")
     tests = [ast.unparse(n.test) for n in ast.walk(jac) if isinstance(n, ast.If)]
-    if tests != ["self.dim == 0", "self.dim != self.inDim and self.order > 1", "absoluteValues"]:
+    if tests not in (["self.dim == 0", "self.dim != self.inDim and (self.order > 1 or self.nPe > self.dim + 1)", "absoluteValues"],):
         raise Refuse(f"Get_jacobian_e_pg: branch tests {tests}")
     return {
         "Get_jacobian_e_pg": _need(jac, ["F_e_pg = self.Get_F_e_pg(matrixType)", "jacobian_e_pg = FeArray.asfearray(Det(F_e_pg))", "coord_e = self.coord[connect]",
                                           "tangents_e_pg = np.einsum('pdn,eni->epdi', self.Get_dN_pg(matrixType), coord_e, optimize='optimal')",
                                           "metric_e_pg = np.linalg.det(tangents_e_pg @ np.swapaxes(tangents_e_pg, -1, -2))", "sign_e_pg = np.where(np.asarray(jacobian_e_pg) < 0, -1.0, 1.0)",
                                           "jacobian_e_pg = FeArray.asfearray(sign_e_pg * np.sqrt(np.abs(metric_e_pg)))", "jacobian_e_pg = np.abs(jacobian_e_pg)", "return jacobian_e_pg"], "_GroupElem.Get_jacobian_e_pg")
-        + ["if self.dim != self.inDim and self.order > 1", "if absoluteValues"],
+        + ["if self.dim != self.inDim and (self.order > 1 or self.nPe > self.dim + 1)", "if absoluteValues"],
         "Get_weightedJacobian_e_pg": _need(wj, ["jacobian_e_pg = self.Get_jacobian_e_pg(matrixType)", "weight_pg = self.Get_weight_pg(matrixType)", "wJ_e_pg = np.asarray(jacobian_e_pg) * weight_pg",
                                                   "return FeArray.asfearray(wJ_e_pg)"], "_GroupElem.Get_weightedJacobian_e_pg"),
     }
